@@ -8,6 +8,7 @@ import (
 	"io"
 	"log"
 	"math"
+	"os"
 	"time"
 
 	"github.com/deadsy/sdfx/render/dc"
@@ -81,20 +82,21 @@ func shardC19(c *Ctx, shard, nshards int) {
 	c19Special(c, shard, nshards)
 	if shard == 0 {
 		c19PinnedSmall(c)
+		c19PinnedSmallVertex(c)
 	}
 	for i := 0; i < n; i++ {
 		if i%nshards != shard {
 			continue
 		}
+		if only := os.Getenv("VCHECK_ONLY"); only != "" && only != fmt.Sprint(i) { // debugging aid
+			continue
+		}
 		r := c.Rng("case", i)
 		scale := r.LogR(0.3, 30)
+		smallUnits := false
 		if r.P(0.25) { // the same part in other units
 			k := pickOne(r, []float64{1e-5, 1e-4, 1e-3, 1e3, 1e5})
-			if (i/8)%2 == 1 && k < 1 {
-				// DualContouringV2 works with absolute step sizes (normal estimation 1e-3, ray march 1e-4): parts of a few
-				// thousandths of a unit come out open - a known finding pinned in c19PinnedSmall, not generated here
-				k = 1 / k
-			}
+			smallUnits = k < 1
 			scale *= k
 		}
 		var s sdf.SDF3
@@ -203,6 +205,25 @@ func shardC19(c *Ctx, shard, nshards int) {
 			c.Violate("", fmt.Sprintf("dc-nan %s: %d non-finite coordinates", tag, rep.NaN), cs)
 			continue
 		}
+		if dbg := os.Getenv("VCHECK_DEBUG_FILE"); rep.Unbalanced > 0 && dbg != "" {
+			if f, err := os.OpenFile(dbg, os.O_APPEND|os.O_CREATE|os.O_WRONLY, 0644); err == nil {
+				fmt.Fprintf(f, "case %d box=%v cell=%g\n", i, box, cell)
+				for _, e := range rep.BadEdges {
+					fmt.Fprintf(f, "bad edge %v\n", e)
+				}
+				for _, tr := range ts {
+					for _, e := range rep.BadEdges {
+						for k := 0; k < 3; k++ {
+							if tr[k].Sub(e[0]).Length() < 1e-6*cell || tr[k].Sub(e[1]).Length() < 1e-6*cell {
+								fmt.Fprintf(f, "  tri %v\n", *tr)
+								k = 3
+							}
+						}
+					}
+				}
+				f.Close()
+			}
+		}
 		if rep.Unbalanced > 0 {
 			c.Violate("", fmt.Sprintf("dc-open %s: %d unmatched directed edges (first %v) in %d triangles", tag, rep.Unbalanced, rep.FirstBadEdge, rep.Triangles), cs)
 		}
@@ -233,7 +254,10 @@ func shardC19(c *Ctx, shard, nshards int) {
 			}
 		}
 		c.MaxObs("worst_vertex_distance_over_cell_diagonal", worstF/diag)
-		if worstF*minFactor > diag { // a squashed field reports up to 1/minFactor times the true distance
+		// DualContouringV2 estimates normals with an absolute step of 1e-3: for parts of a few thousandths of a unit its vertices
+		// drift from ~0.1 to ~1 cell diagonal off the surface (pinned known finding c19KeySmallVertex); generated small-unit
+		// V2 cases are judged on closure, orientation, box and determinism only
+		if worstF*minFactor > diag && !(smallUnits && name == "v2") { // a squashed field reports up to 1/minFactor times the true distance
 			c.Violate("", fmt.Sprintf("dc-far-vertex %s: a vertex is %g from the surface, cell diagonal %g", tag, worstF, diag), cs)
 		}
 		if outside > 0 {
@@ -359,29 +383,51 @@ func maxInt2(a, b int) int {
 	return b
 }
 
-// c19PinnedSmall: known finding, identified by this input.
-const c19KeySmall = "dcv2-box-1e-3-units-26-cells"
-
+// c19PinnedSmall: pinned regressions of a repaired defect (sdfx 8f41c8a): DualContouringV2 dropped a whole quad when one of
+// its two triangles had coincident vertices, which left triangular holes - frequent for parts of a few thousandths of a unit.
 func c19PinnedSmall(c *Ctx) {
-	b, _ := sdf.Box3D(v3.Vec{X: 1e-3, Y: 2e-3, Z: 1e-3}, 0)
-	box := b.BoundingBox().Enlarge(v3.Vec{X: 4e-4, Y: 4e-4, Z: 4e-4})
-	wrapped := &fieldSDF3{bb: box, fn: b.Evaluate}
-	ts := c19Render("v2", wrapped, 26)
-	c.Eval(1)
-	cell := box.Size().MaxComponent() / 26
-	rep := checkClosed3(ts, 1e-6*cell)
-	// control: the same part in units 1000 times smaller (numbers 1000 times larger)
-	b2, _ := sdf.Box3D(v3.Vec{X: 1, Y: 2, Z: 1}, 0)
-	box2 := b2.BoundingBox().Enlarge(v3.Vec{X: 0.4, Y: 0.4, Z: 0.4})
-	ts2 := c19Render("v2", &fieldSDF3{bb: box2, fn: b2.Evaluate}, 26)
-	rep2 := checkClosed3(ts2, 1e-6*cell*1000)
-	c.Eval(1)
-	if rep2.Unbalanced > 0 || len(ts2) < 8 {
-		c.Violate("", fmt.Sprintf("dc-open v2 cells=26 Box3D(1,2,1) in a box 0.4 larger: %d unmatched directed edges in %d triangles", rep2.Unbalanced, len(ts2)), map[string]any{"renderer": "v2", "cells": 26, "box": box2})
+	for _, k := range []float64{1e-3, 1} {
+		b, _ := sdf.Box3D(v3.Vec{X: k, Y: 2 * k, Z: k}, 0)
+		box := b.BoundingBox().Enlarge(v3.Vec{X: 0.4 * k, Y: 0.4 * k, Z: 0.4 * k})
+		ts := c19Render("v2", &fieldSDF3{bb: box, fn: b.Evaluate}, 26)
+		c.Eval(1)
+		cell := box.Size().MaxComponent() / 26
+		rep := checkClosed3(ts, 1e-6*cell)
+		if rep.Unbalanced > 0 || len(ts) < 8 {
+			c.Violate("", fmt.Sprintf("dc-open v2 cells=26 pinned Box3D(%g,%g,%g) in a box %g larger: %d unmatched directed edges in %d triangles", k, 2*k, k, 0.4*k, rep.Unbalanced, len(ts)),
+				map[string]any{"renderer": "v2", "cells": 26, "box": box})
+		}
 	}
-	if rep.Unbalanced > 0 || len(ts) < 8 {
-		c.Violate(c19KeySmall, fmt.Sprintf("dc-open-small-units v2 cells=26 Box3D(0.001,0.002,0.001) in a box 0.0004 larger: %d unmatched directed edges in %d triangles; the same part with all numbers 1000x larger gave %d unmatched edges in %d triangles "+
-			"(DualContouringV2 uses absolute step sizes: normal estimation 1e-3, ray march epsilon 1e-4)", rep.Unbalanced, len(ts), rep2.Unbalanced, len(ts2)), map[string]any{"renderer": "v2", "cells": 26, "box": box})
+}
+
+// c19PinnedSmallVertex: known finding, identified by this input.
+const c19KeySmallVertex = "dcv2-cone-7e-4-units-28-cells-vertex-off-surface"
+
+func c19PinnedSmallVertex(c *Ctx) {
+	worstOver := func(k float64) float64 {
+		s, _ := sdf.Cone3D(7*k, 5*k, 2*k, 0)
+		bb := s.BoundingBox()
+		box := bb.Enlarge(bb.Size().MulScalar(0.2))
+		ts := c19Render("v2", &fieldSDF3{bb: box, fn: s.Evaluate}, 28)
+		c.Eval(1)
+		diag := box.Size().MaxComponent() / 28 * math.Sqrt(3)
+		worst := 0.0
+		for _, tr := range ts {
+			for q := 0; q < 3; q++ {
+				worst = math.Max(worst, math.Abs(s.Evaluate(tr[q])))
+			}
+		}
+		return worst / diag
+	}
+	small, unit := worstOver(1e-4), worstOver(1)
+	c.Obs("v2_cone_28_cells_worst_vertex_over_diagonal_at_1e-4_units", small)
+	c.Obs("v2_cone_28_cells_worst_vertex_over_diagonal_at_unit_size", unit)
+	if unit > 1 {
+		c.Violate("", fmt.Sprintf("dc-far-vertex v2 cells=28 pinned Cone3D(7,5,2): a vertex is %.3f cell diagonals from the surface", unit), map[string]any{"renderer": "v2", "cells": 28})
+	}
+	if small > 1 {
+		c.Violate(c19KeySmallVertex, fmt.Sprintf("dc-far-vertex-small-units v2 cells=28 Cone3D(0.0007,0.0005,0.0002): a vertex is %.3f cell diagonals from the surface (the same cone 10000x larger: %.3f)", small, unit),
+			map[string]any{"renderer": "v2", "cells": 28})
 	}
 }
 
